@@ -1,6 +1,7 @@
 import MsiProofs.Props.C06
 import MsiProofs.Lemmas.CatalogCodec
 import MsiProofs.Lemmas.CatalogOpen
+import MsiProofs.Lemmas.Lifecycle
 /-
 C06, second half — the `_Validation` side and whole tables: the catalog rows `create_table`
 writes for a storable column decode to that column (name, type and width, flags, value range,
@@ -43,5 +44,17 @@ def openTables_of_catalog := @MsiProofs.CatalogOpen.openTables_of_catalog
 def decode_table := @MsiProofs.CatalogOpen.decode_table
 /-- the table list is determined by its members: name-sorted lists with the same members are equal -/
 def nameSorted_unique := @MsiProofs.CatalogOpen.nameSorted_unique
+
+
+/-- **`create_table`, accepted, is read back by `open`**: in any state satisfying the package
+invariants, after an accepted `create_table` the catalog pass of `open` returns the table list
+with the new definition in it, column for column -/
+def createTable_then_open := @MsiProofs.Lifecycle.createTable_then_open
+/-- an accepted `create_table` extends the catalog tables by exactly the rows of the new definition -/
+def createTable_full := @MsiProofs.CreateTable.createTable_full
+/-- the membership form of the catalog invariant implies the decode form -/
+def synced_of_rows := @MsiProofs.CatalogRows.synced_of_rows
+/-- the state `Package::create` builds has its catalog in sync (non-vacuity of the invariants) -/
+def created_full := @MsiProofs.Created.created_full
 
 end MsiProofs.C06
